@@ -24,7 +24,7 @@ type c18 struct{}
 
 func init() {
 	Register(c18{})
-	rules["C18"] = "programs: curated + seeded generated complete commands (incl. here-documents under then/do, multi-line forms, outputs larger than the 4096-byte bufio buffer). Fault-free lane: each program under ALL 256 Configs: print twice (same bytes), deep dump of the tree unchanged, re-parse of the output succeeds and prints to the same bytes. Fault lane: each program x 8 seeded Configs x writer kinds {fail-after-k, short-after-k (n<len, nil error), chunk-limited} with EVERY k in [0,L] when L<=512, else k in {0,1,4095,4096,4097,8191,8192,L-1,L} plus 32 seeded values: k<L => Fprint returns a non-nil error that errors.Is the injected error (io.ErrShortWrite for short), the bytes accepted are a prefix of the fault-free output, no panic, tree unchanged, a following fault-free print is unchanged; k>=L => nil error and exact output. evaluations = Fprint calls; non-trivial = output of at least 2 lines or a writer fault actually fired; distinct = distinct (program, lane)"
+	rules["C18"] = "programs: curated + seeded generated complete commands (incl. here-documents under then/do, multi-line forms, outputs larger than the 4096-byte bufio buffer). Fault-free lane: each program under ALL 256 Configs: print twice (same bytes), deep dump of the tree unchanged, re-parse of the output succeeds and prints to the same bytes. Fault lane: each program x 8 seeded Configs x writer kinds {fail-after-k, short-after-k (n<len, nil error), chunk-limited} with EVERY k in [0,L] when L<=512, else k in {0,1,4095,4096,4097,8191,8192,L-1,L} plus 32 seeded values: k<L => Fprint returns a non-nil error that errors.Is the injected error (io.ErrShortWrite for short), the bytes accepted are a prefix of the fault-free output, no panic, tree unchanged, a following fault-free print is unchanged; k>=L => nil error and exact output. The other node kinds Fprint accepts (the comments the program came with, one synthesized comment, word and word part) go to a writer failing after k bytes for every k < min(L,64): the injected error must come back. evaluations = Fprint calls; non-trivial = output of at least 2 lines or a writer fault actually fired; distinct = distinct (program, lane)"
 }
 
 func (c18) ID() string { return "C18" }
